@@ -14,9 +14,13 @@ EXTENDS LineElements
 CONSTANTS
   Chan,         \* channel ids 1..N
   ChanType,     \* [Chan -> [baudDb, slotDb]]      10 log10 of baud rate / slot width in GHz (udB)
+  ChanType2,    \* [Chan -> [baudDb, slotDb]]      other baud rates / slot widths ON THE SAME FREQUENCIES (second crossing)
+  Stages,       \* subset of {"designed", "reloaded"}: the crossing is made on the designed network, or on the network
+                \*   exported (network_to_json / save_network) and loaded again - the configuration is the same
   NodeV,        \* [PolicyKinds -> Int]            value of the node-level policy of each kind
   DegV,         \* [PolicyKinds -> Int]            value written for the egress degree when it has its own setting
   LoadCases,    \* set of [lib, elt]               node-level policy kinds written in library entry / element
+  EltDegKinds,  \* subset of DegKinds explored when the node policy is written in the ELEMENT (all of them in the thorough tier)
   DegKinds,     \* subset of PolicyKinds \cup {"none", "pch0"}   kind of the egress degree's own setting
   Crossings,    \* subset of {"add", "drop", "express"}
   Deltas,       \* set of Int                      input power of a channel relative to its target
@@ -30,8 +34,9 @@ CONSTANTS
 VARIABLES phase,   \* "cfg" -> "ready" | "rejected";  "ready" -> "out"
           cfg,     \* the configuration and the crossing to perform
           pch,     \* [Chan -> Int] per-channel power
-          last     \* record of the crossing performed (in, tgt, out), NoCross before
-vars == <<phase, cfg, pch, last>>
+          last,    \* record of the crossing performed (in, tgt, out), NoCross before
+          last2    \* record of the SECOND crossing of the same ROADM (same frequencies, channel types ChanType2)
+vars == <<phase, cfg, pch, last, last2>>
 
 NoCross == [in |-> <<>>, tgt |-> <<>>, out |-> <<>>]
 N == Cardinality(Chan)
@@ -50,19 +55,25 @@ Profiles(c) == IF c.prof = "single" THEN <<[id |-> 1, type |-> c.crossing, loss 
                       [id |-> 2, type |-> c.crossing, loss |-> [k \in Chan |-> c.maxloss[k] + Extra]]>>
 ExplicitId(c) == IF c.prof = "explicit" THEN 2 ELSE NONE
 PathLoss(c)   == ProfileFor(Profiles(c), c.crossing, ExplicitId(c)).loss
-ChanRec(c, k, pin) == [baudDb |-> ChanType[k].baudDb, slotDb |-> ChanType[k].slotDb, offset |-> c.offset[k],
-                       in |-> pin, maxloss |-> PathLoss(c)[k]]
+ChanRecOf(T, c, k, pin) == [baudDb |-> T[k].baudDb, slotDb |-> T[k].slotDb, offset |-> c.offset[k],
+                            in |-> pin, maxloss |-> PathLoss(c)[k]]
+ChanRec(c, k, pin) == ChanRecOf(ChanType, c, k, pin)
 
 Cfgs == [lib : {l.lib : l \in LoadCases}, elt : {l.elt : l \in LoadCases}, degKind : DegKinds, crossing : Crossings,
-         offset : OffsetVecs, maxloss : MaxLossVecs, prof : ProfKinds, delta : [Chan -> Deltas]]
+         offset : OffsetVecs, maxloss : MaxLossVecs, prof : ProfKinds, stage : Stages, delta : [Chan -> Deltas]]
 
 \* one initial state per case; rejected configurations are not multiplied by the crossing grid
 Init == /\ phase = "cfg"
         /\ last = NoCross
+        /\ last2 = NoCross
         /\ cfg \in Cfgs
         /\ [lib |-> cfg.lib, elt |-> cfg.elt] \in LoadCases
         \* the profile layouts are explored on the plain configuration only (library policy, no degree setting, no offsets)
         /\ cfg.degKind = "pch0" => cfg.elt = {}
+        /\ cfg.elt # {} => cfg.degKind \in EltDegKinds
+        \* export + reload is explored on the plain configurations (library policy, no offsets, one profile, first loss)
+        /\ cfg.stage = "reloaded" => (cfg.elt = {} /\ cfg.prof = "single" /\ (\A k \in Chan : cfg.offset[k] = 0)
+                                      /\ cfg.maxloss = CHOOSE m \in MaxLossVecs : TRUE)
         /\ cfg.prof # "single" => (cfg.elt = {} /\ cfg.degKind = "none" /\ \A k \in Chan : cfg.offset[k] = 0)
         /\ ~ConfigAccepted(cfg.lib, cfg.elt) =>
               /\ cfg.degKind = CHOOSE d \in DegKinds : TRUE
@@ -70,6 +81,7 @@ Init == /\ phase = "cfg"
               /\ cfg.offset = CHOOSE o \in OffsetVecs : TRUE
               /\ cfg.maxloss = CHOOSE m \in MaxLossVecs : TRUE
               /\ cfg.prof = "single"
+              /\ cfg.stage = "designed"
               /\ cfg.delta = CHOOSE d \in [Chan -> Deltas] : TRUE
         /\ pch = [k \in Chan |-> 0]
 
@@ -80,7 +92,7 @@ Load == /\ phase = "cfg"
                 /\ pch' = [k \in Chan |-> Target(NodePolicy(cfg), DegSetting(cfg), ChanRec(cfg, k, 0)) + cfg.delta[k]]
            ELSE /\ phase' = "rejected"
                 /\ pch' = pch
-        /\ UNCHANGED <<cfg, last>>
+        /\ UNCHANGED <<cfg, last, last2>>
 
 Cross == /\ phase = "ready"
          /\ LET node == NodePolicy(cfg)
@@ -91,25 +103,42 @@ Cross == /\ phase = "ready"
                            tgt |-> [k \in 1..N |-> Target(node, deg, ChanRec(cfg, k, pch[k]))],
                            out |-> [k \in 1..N |-> out[k]]]
          /\ phase' = "out"
-         /\ UNCHANGED cfg
+         /\ UNCHANGED <<cfg, last2>>
 
-Next == Load \/ Cross
+\* the same ROADM object is crossed again by a spectrum on the SAME frequencies with other baud rates / slot widths
+\* (another transceiver mode): a crossing depends on the spectrum it is given only - the ROADM has no memory.
+\* The inputs sit at the same distance from each channel's (new) target.
+\* (explored on the configurations without per-channel offsets)
+RecrossEnabled == \A k \in Chan : cfg.offset[k] = 0
+Recross == /\ phase = "out"
+           /\ RecrossEnabled
+           /\ LET node == NodePolicy(cfg)
+                  deg  == DegSetting(cfg)
+                  tgt  == [k \in Chan |-> Target(node, deg, ChanRecOf(ChanType2, cfg, k, 0))]
+                  inp  == [k \in Chan |-> tgt[k] + cfg.delta[k]]
+                  out  == [k \in Chan |-> RoadmOut(node, deg, ChanRecOf(ChanType2, cfg, k, inp[k]))]
+              IN /\ pch' = out
+                 /\ last2' = [in |-> [k \in 1..N |-> inp[k]], tgt |-> [k \in 1..N |-> tgt[k]], out |-> [k \in 1..N |-> out[k]]]
+           /\ phase' = "out2"
+           /\ UNCHANGED <<cfg, last>>
+
+Next == Load \/ Cross \/ Recross
 Spec == Init /\ [][Next]_vars
 
 (* ---------------------------------------------- the clauses of C06 ------------------------------------------ *)
-TypeOK == /\ phase \in {"cfg", "ready", "rejected", "out"}
+TypeOK == /\ phase \in {"cfg", "ready", "rejected", "out", "out2"}
           /\ pch \in [Chan -> Int]
 
 \* exactly one equalisation policy is in force; an element-level policy replaces the library default
-SinglePolicy == phase \in {"ready", "out"} =>
+SinglePolicy == phase \in {"ready", "out", "out2"} =>
                    /\ Cardinality(InForce(cfg)) = 1
                    /\ cfg.elt # {} => InForce(cfg) = cfg.elt
                    /\ cfg.elt = {} => InForce(cfg) = cfg.lib
 \* two node-level policies (in the library entry or in the element), or none in the library, are rejected at load
 InvalidRejected == /\ phase = "rejected" => (Cardinality(cfg.elt) > 1 \/ Cardinality(cfg.lib) # 1)
-                   /\ phase \in {"ready", "out"} => (Cardinality(cfg.elt) <= 1 /\ Cardinality(cfg.lib) = 1)
+                   /\ phase \in {"ready", "out", "out2"} => (Cardinality(cfg.elt) <= 1 /\ Cardinality(cfg.lib) = 1)
 
-Crossed == phase = "out"
+Crossed == phase \in {"out", "out2"}
 \* no channel ever leaves a ROADM with more power than it entered
 NeverAmplifies == Crossed => \A k \in 1..N : last.out[k] <= last.in[k]
 NeverAmplifiesStep == [][phase' = "out" => \A k \in Chan : pch'[k] <= pch[k]]_vars
@@ -120,6 +149,12 @@ EqualisedToTarget == Crossed => \A k \in 1..N :
 \* never boosted)
 BelowTargetLossOnly == Crossed => \A k \in 1..N :
                         last.in[k] - PathLoss(cfg)[k] < last.tgt[k] + cfg.offset[k] => last.out[k] = last.in[k] - PathLoss(cfg)[k]
+\* no memory: the second crossing (other baud rates / slot widths on the same frequencies) obeys the law with ITS OWN channel
+\* types, and never amplifies either
+SecondCrossingOnItsOwn == phase = "out2" => \A k \in 1..N :
+                        /\ last2.tgt[k] = Target(NodePolicy(cfg), DegSetting(cfg), ChanRecOf(ChanType2, cfg, k, 0))
+                        /\ last2.out[k] = MinI(last2.tgt[k] + cfg.offset[k], last2.in[k] - PathLoss(cfg)[k])
+                        /\ last2.out[k] <= last2.in[k]
 \* the path loss is the one of the profile named for the pair of degrees, else of the first listed profile of the type
 PathLossByListing == Crossed => PathLoss(cfg) = (IF cfg.prof = "explicit" THEN [k \in Chan |-> cfg.maxloss[k] + Extra] ELSE cfg.maxloss)
 \* the target is the egress degree's setting if one exists (of whatever kind), else the node's
